@@ -81,7 +81,11 @@ func mutateReq(r *R, q Req, other []Req) Req {
 				"Sec-Fetch-Mode": {"no-cors", "cors", "navigate"}, "Sec-Fetch-Site": {"cross-site", "same-origin"}, "Referer": {"https://example.com/"},
 				"Authorization": {"Bearer x"}, "Content-Type": {"application/json", "text/plain"}, "Access-Control-Request-Local-Network": {"true"},
 				"X-Forwarded-For": {"10.0.0.1"}, "Accept": {"*/*"}, "User-Agent": {"curl/8"}, "Access-Control-Request-Credentials": {"true"}}[k]
-			q = q.with(k, pick(r, vals))
+			v := pick(r, vals)
+			if dv, ok := dictStr(r, dict.any, 0.15); ok {
+				v = dv // a literal of the tree under test
+			}
+			q = q.with(k, v)
 		case 3: // multi-valued
 			if v, ok := q.get(k); ok && len(v) > 0 {
 				q = q.with(k, append(append([]string{}, v...), "extra")...)
